@@ -451,6 +451,7 @@ type Result struct {
 	Leaked       []string          `json:"leaked,omitempty"`
 	Order        []string          `json:"order,omitempty"`
 	Crashed      bool              `json:"crashed,omitempty"`
+	Ignored      []string          `json:"ignored,omitempty"`
 }
 
 // ---- response canonicalisation ----------------------------------------------------------------------
@@ -764,4 +765,19 @@ func OrderCoq(order []string) string {
 		}
 	}
 	return gen.List(items)
+}
+
+// Effective returns the oracle as this configuration could express it (entries the driver reported as
+// not expressible with the configuration's Go types removed).
+func (o Oracle) Effective(ignored []string) Oracle {
+	if len(ignored) == 0 {
+		return o
+	}
+	n := o.Clone()
+	for _, ig := range ignored {
+		if strings.HasPrefix(ig, "elem:") {
+			delete(n.Elems, strings.TrimPrefix(ig, "elem:"))
+		}
+	}
+	return n
 }
